@@ -451,6 +451,15 @@ func c02Run(c *engine.Ctx) {
 			}
 		}
 	}
+	universe.Scale(func(r universe.Recipe) {
+		c02Check(c, "structure", "boundary", r.String, func() any { return r.Build() }, []string{"method"}, true)
+	})
+	for i := range universe.Structs {
+		s := &universe.Structs[i]
+		universe.Degenerate(s, universe.JSON, func(r universe.Recipe) {
+			c02Check(c, "structure", "empty-neighbour", r.String, func() any { return r.Build() }, both, true)
+		})
+	}
 	// (ii) hostile strings
 	type hs struct{ class, s string }
 	var hostile []hs
